@@ -258,7 +258,9 @@ protected:
     // The parser recurses once per parenthesis and builds a tree as deep as
     // the query has terms; both are bounded to keep the stack bounded
     static const std::size_t MAX_NESTING_DEPTH = 256;
-    static const std::size_t MAX_TERMS         = 2048;
+    // a chain of k terms is printed with k nested parentheses and parsed again as
+    // a value expression, whose nesting is bounded by the same number
+    static const std::size_t MAX_TERMS         = 257;    // 256 terms and the end of the query
     std::size_t    nesting_depth;
     std::size_t    term_count;
 
